@@ -36,7 +36,7 @@ fam('annot_lambda', depth=4, maxstack=3,
               ('APPLY',), ('EXEC',), PUSH(NAT, i(2)), ('SWAP',), ('DIG', 2)])
 
 FAMS = ['comb', 'annot_text', 'annot_keys', 'adt', 'optlist', 'types_map', 'types_list', 'annot_lambda']
-SCHEMES = ['field-all', 'type-all', 'both-all', 'field-inner-pairs', 'type-inner-pairs']
+SCHEMES = ['field-all', 'type-all', 'both-all', 'field-inner-pairs', 'type-inner-pairs', 'field-bare']
 
 
 def annotate_type(tj, scheme, path=(), parent=None, idx=0):
@@ -50,6 +50,8 @@ def annotate_type(tj, scheme, path=(), parent=None, idx=0):
         ann.append(':t%d' % (len(path) * 2 + idx))
     if scheme == 'field-leaves' and in_pair_or and tj.get('prim') not in ('pair', 'or'):
         ann.append('%%l%d' % (len(path) * 2 + idx))      # annotated leaves under nodes that carry no annotation themselves
+    if scheme == 'field-bare' and in_pair_or:
+        ann.append('%')        # the empty field annotation: written, and names nothing
     if scheme == 'field-inner-pairs' and inner_pair:
         ann.append('%inner')
     if scheme == 'type-inner-pairs' and inner_pair:
